@@ -275,7 +275,7 @@ def mon_C13(run):
     uo = run.user_opts
     cap = 0
     polls_by_it = {p["it"]: p for p in run.polls}
-    kprev = 0
+    kprev = int(uo.get("init_mesh_size_integer", 0))
     for it, pr in enumerate(run.probes):
         pol = polls_by_it.get(it)
         k = pr["k"]
